@@ -8,7 +8,7 @@ import SkaModel.Props.C01
 (the *mask discipline*, a decidable condition the harness evaluates on the rows captured from the real
 run) and NaN outside the candidates returns pairwise distinct candidates, each attaining the maximum of
 its row — whatever the rows are (distances, typicalities, densities, …), for every batch length and all
-positive noise draws.  This is what makes CoreSet, ProbCover, Clue, DropQuery, DiscriminativeAL, FourDs,
+positive noise draws.  This is what makes CoreSet, ProbCover, Clue, DropQuery, DiscriminativeAL, FourDs, BatchBALD,
 TypiClust, GreedySampling* and RegressionTreeBasedAL satisfy the distinctness / membership clauses of
 C01 and the arg-max clause of C02; the per-strategy hypothesis is checked on every run against the
 arrays actually passed to `rand_argmax`.
